@@ -135,8 +135,12 @@ func renderSchemaSpec(g *sGen) string {
 
 func genSchemaFamily(c *Ctx, filter func(string) bool) {
 	n, depth := 24, 1
+	deepFrom := -1 // packages from this index on use one more level of nesting
 	if c.Tier == "thorough" {
-		n, depth = 120, 2
+		n, deepFrom = 48, 40
+		if c.Prop == "C08" || c.Prop == "C18" {
+			n, deepFrom = 24, 20 // the document space per type is the expensive dimension here
+		}
 	}
 	if (c.Prop == "C08" || c.Prop == "C18") && c.Tier != "thorough" {
 		n = 12 // the document space per type is the expensive dimension here
@@ -145,6 +149,9 @@ func genSchemaFamily(c *Ctx, filter func(string) bool) {
 		name := fmt.Sprintf("s_%03d", i)
 		if filter != nil && !filter(name) {
 			continue
+		}
+		if deepFrom >= 0 && i >= deepFrom {
+			depth = 2
 		}
 		g := &sGen{rng: rand.New(rand.NewSource(c.Seed*15485863 + int64(i)*31 + 7)), defs: map[string]string{}, safe: true}
 		// base objects
